@@ -56,7 +56,7 @@ def run(R):
     R.rule = ("cases = (program, k, source kind): for every ShellGen program every rune index k in [0, len] as the first failing "
               "read, for a custom io.RuneScanner and for an io.Reader -- the complete single-fault set of each program; "
               "distinct_nontrivial = distinct (program, k) whose fault was actually delivered to the parser")
-    R.assumptions = ["the fault persists (every read from k on fails)", "delivery is observed on the RuneScanner run; the io.Reader run of "
+    R.assumptions = ["the fault persists (every read from k on fails); the error is a wrapped sentinel, at every other position one that also wraps io.EOF (alternating between the two deliveries)", "delivery is observed on the RuneScanner run; the io.Reader run of "
                      "the same k must agree because the parser is deterministic in the runes it reads"]
     import random
     rnd = random.Random(R.seed)
@@ -68,6 +68,15 @@ def run(R):
         R.notes["programs_with_case_break"] = len(brk)
     else:
         cases = shellgen.dedup(b3 + shellgen.simulate(R, 1500))
+    # the same programs with a trailing comment in front of every newline (a fault inside a comment)
+    from checks import c09
+    lay = c09.gen(R, 2, 0)
+    cm = []
+    for c in rnd.sample(lay, min(len(lay), 600 if R.tier == "quick" else len(lay))):
+        vs = [v for v in c["variants"] if v["kind"] in ("comment", "comment-eof")]
+        cm += [dict(src=v["src"]) for v in vs[:3]]
+    cases = cases + shellgen.dedup(cm)
+    R.notes["commented_programs"] = len(cm)
     for i, c in enumerate(cases):
         c["id"] = "f%d" % i
     recs = observe(R, cases)
